@@ -44,7 +44,8 @@ def pick_variant(prop, rng, scale=1.0):
               ("edits", 0.08 if prop in ("C07", "C13", "C14") else 0.0),
               ("reversed", 0.06 if prop == "C07" else 0.0),   # reverse_log_information() after the run, then the cost passes
               ("json_resume", 0.08 if prop == "C13" else 0.06),   # simulate(max_time=k), write/read JSON, resume the restored project
-              ("backward_first", 0.10 if prop in ("C13", "C01", "C06") else 0.05)]  # backward_simulate(), then a monitored simulate() on the same objects
+              ("backward_first", 0.10 if prop in ("C13", "C01", "C06") else 0.05),  # backward_simulate(), then a monitored simulate() on the same objects
+              ("history", 0.06)]   # 2-4 operations of different kinds (runs, backward runs, pauses, reloads, edits, absence edits), then the monitored run
     acc = 0.0
     for name, share in shares:
         acc += share * scale
@@ -89,8 +90,8 @@ def make_case(prop, seed, i, tier):
         # beyond the usual sizes: one dimension stretched (run length, fan-in, tasks per component, length of a
         # finish-gated chain, team size, ...), the rest small; the dimension a property is most sensitive to is
         # drawn more often
-        prefer = {"C01": ["wide"] * 5, "C02": ["ff_chain"] * 5 + ["long"] * 2, "C06": ["ff_chain"] * 5, "C03": ["many_resources"] * 4,
-                  "C04": ["numeric_ids"] * 4 + ["many_resources"], "C07": ["many_resources"] * 3 + ["long"] * 3,
+        prefer = {"C01": ["wide"] * 5, "C02": ["ff_chain"] * 5 + ["long"] * 2, "C06": ["ff_chain"] * 5 + ["shared_ids"] * 4, "C03": ["many_resources"] * 4,
+                  "C04": ["numeric_ids"] * 4 + ["many_resources", "shared_ids", "shared_ids"], "C07": ["many_resources"] * 3 + ["long"] * 3,
                   "C13": ["many_components"] * 6, "C14": ["one_component"] * 4}.get(prop, [])
         spec = G.gen_scale(rng, rng.choice(list(G.SCALE_KINDS) + prefer))
         variant = pick_variant(prop, rng) if rng.random() < 0.3 else "single"
@@ -130,6 +131,9 @@ def make_case(prop, seed, i, tier):
         if rng.random() < 0.5:
             ab.sort()
         spec["sim"]["absence"] = ab
+    if prop == "C13" and variant in ("resume", "history", "edit_resim", "keeplog") and rng.random() < 0.4:
+        # conveyor lines (components that do move from workplace to workplace) under the histories that edit the model
+        spec = G.perturb_fixture(rng, fixtures()[rng.choice(["conveyor", "conveyor"])])
     if prop == "C13" and variant == "backward_first":
         # conveyor links matter here: both directions of the same links are exercised on the same objects
         for k in range(1, len(spec["wps"])):
@@ -161,16 +165,28 @@ def monitors_for(prop):
     return mk
 
 
+class _Frozen(object):
+    """The object lists of a project as they are now (read_simple_json into the same object replaces them)."""
+
+    def __init__(self, p):
+        class _L(object):
+            pass
+        self.product, self.workflow, self.organization = _L(), _L(), _L()
+        self.product.component_list = list(p.product.component_list)
+        self.workflow.task_list = list(p.workflow.task_list)
+        self.organization.workplace_list = list(p.organization.workplace_list)
+
+
 def carry_over(old_mons, new_mons, p_old, p_new):
     """Monitor memory that spans steps (where a component was, which assemblies were split, when a task
     started, which component states were seen) follows the model through a save/load: objects are
     matched by ID."""
-    new_by_id = {}
+    new_by_id = {}      # (per class: ID strings may be shared across classes)
     for o in list(p_new.workflow.task_list) + list(p_new.product.component_list) + list(p_new.organization.workplace_list):
-        new_by_id[o.ID] = o
+        new_by_id[(type(o).__name__, o.ID)] = o
 
     def r(o):
-        return None if o is None else new_by_id.get(o.ID)
+        return None if o is None else new_by_id.get((type(o).__name__, o.ID))
     old_by_pyid = {}
     for o in list(p_old.product.component_list):
         old_by_pyid[id(o)] = o
@@ -255,7 +271,9 @@ def run_case(case):
                     from . import edits as E
                     # (the offline log passes of C04 / C07 read skills, fixed lists and rates as static)
                     skip = {"C04": ("skill", "fskill", "skill_busy", "fskill_busy", "fixed", "solo"), "C07": ("cost", "fcost")}.get(prop, ())
-                    more = {"C02": ("skill_busy", "skill_busy", "skill_busy", "fskill_busy", "skill"), "C03": ("absence_append", "solo"), "C13": ("fskill", "solo")}.get(prop, ())
+                    more = {"C02": ("skill_busy", "skill_busy", "skill_busy", "fskill_busy", "skill"),
+                            "C03": ("absence_append", "solo", "add_worker"), "C04": ("team_target_remove",) * 5 + ("team_target_add", "add_worker"),
+                            "C06": ("add_worker",) * 3 + ("team_target_add",), "C13": ("wp_inputs_set",) * 6 + ("fskill", "solo")}.get(prop, ())
                     spec, _what = E.edit(vr, spec, m, n=vr.randint(1, 4), only=[x for x in E.MID_RUN + more if x not in skip])
                     res.count("resume_with_parameter_edits")
                 B.run(m.project, spec, initialize_state_info=False, initialize_log_info=False)
@@ -292,17 +310,20 @@ def run_case(case):
             placement_exception(m, tr, err)
             return res
         h = Hist(spec, order=False, model=m)
-        e = h.do(["saveload"])
+        p_old = _Frozen(m.project)          # (the objects of the paused project, for the carry-over by ID)
+        same_object = vr.random() < 0.4
+        e = h.do(["reload"] if same_object else ["saveload"])   # read into the SAME BaseProject object / into a new one
         if e is not None:
             res["aborted"] = e
             return res
+        res.count("json_resumed_runs.same_object" if same_object else "json_resumed_runs.new_object")
         q = h.p
         started = M.StartedSnap()
         for t in q.workflow.task_list:
             if any(x in (M.TS.WORKING, M.TS.FINISHED) for x in t.state_record_list):
                 started.started.add(t)
         tr2 = I.Tracer([started] + list(monitors_for(prop)(started)))
-        carry_over(tr.monitors, tr2.monitors, m.project, q)
+        carry_over(tr.monitors, tr2.monitors, p_old, q)
         tr2.state_reset = False
         if q.time > 0:
             snap = I.Snap(q, "recorded", (q.time - 1) in q.absence_time_list)
@@ -328,6 +349,47 @@ def run_case(case):
         class _M(object):
             project = q
         m = _M()
+    elif variant == "history":
+        from .p_c08 import gen_ops
+        from . import edits as E
+        I.install()
+        I.set_order(case.get("order") or I.default_order(spec))
+        m = B.build(spec)
+        h = Hist(spec, order=False, model=m)
+        ops = gen_ops(vr, n=vr.randint(2, 4))
+        done = []
+        for op in ops:
+            r_ = vr.random()
+            if r_ < 0.2 and h.p is m.project:
+                spec, _what = E.edit(vr, spec, m, n=vr.randint(1, 2))      # a model edit between two operations
+                h.spec = spec
+                done.append("edit")
+            elif r_ < 0.3 and h.p.time > 0:
+                if h.p.absence_time_list:
+                    h.do(["remove_abs"])
+                    done.append("remove_abs")
+                else:
+                    h.do(["insert_abs", sorted(vr.sample(range(0, h.p.time + 1), min(h.p.time, vr.randint(1, 2))))])
+                    done.append("insert_abs")
+            e = h.do(op)
+            done.append(op[0])
+            if e is not None:
+                res["aborted"] = e
+                return res
+        res.count("history_runs")
+        res.count("history_ops", len(done))
+        res.count("history_distinct_op_kinds." + str(len(set(done))))
+
+        class _MH(object):
+            project = h.p
+        m = _MH()
+        tr2, err2 = resimulate(m, spec, monitors_for(prop))
+        res.absorb(tr2, props=(prop,))
+        res.count("steps", tr2.phase_counts.get("recorded", 0))
+        if err2 is not None:
+            res["aborted"] = err2
+            placement_exception(m, tr2, err2)
+            return res
     elif variant == "backward_first":
         I.install()
         I.set_order(case.get("order") or I.default_order(spec))
@@ -406,6 +468,14 @@ def run_case(case):
             kw = None
             if variant == "keeplog":
                 kw = dict(initialize_log_info=False, max_time=m.project.time + spec["sim"]["max_time"])
+                if vr.random() < 0.5:
+                    from . import edits as E
+                    # the model is edited before the appended run (state is re-initialised, logs are kept)
+                    # (the log passes of C04 / C07 read skills, fixed lists, solo flags and rates as static over the whole log)
+                    spec, _what = E.edit(vr, spec, m, extra={"C01": ("edge_add",) * 6, "C14": ("bind_component",) * 6}.get(prop, ()),
+                                         skip={"C04": ("skill", "fskill", "skill_busy", "fskill_busy", "fixed", "solo"), "C07": ("cost", "fcost")}.get(prop, ()))
+                    kw["max_time"] = m.project.time + spec["sim"]["max_time"]
+                    res.count("keeplog_after_model_edit")
             if variant == "edit_resim":
                 from . import edits as E
                 rs = [w for tm in m.project.organization.team_list for w in tm.worker_list] + \
@@ -414,8 +484,11 @@ def run_case(case):
                     for x in vr.sample(range(0, 12), vr.randint(1, 3)):
                         if x not in r_.absence_time_list:
                             r_.absence_time_list.append(x)     # in place, as a user would
-                # ... and other parameters (skills, costs, work amounts, rules, flags, capacities)
-                spec, _what = E.edit(vr, spec, m)
+                # ... and other parameters (skills, costs, work amounts, rules, flags, capacities), the structure
+                # (new dependencies, new workers, team targets, conveyor inputs, a first task for an empty component)
+                spec, _what = E.edit(vr, spec, m, extra={"C14": ("bind_component",) * 8, "C13": ("wp_inputs_set", "bind_component") * 3,
+                                                         "C01": ("edge_add",) * 4, "C04": ("team_target_remove", "team_target_add") * 2,
+                                                         "C06": ("add_worker", "edge_add") * 2}.get(prop, ()))
             tr2, err2 = resimulate(m, spec, monitors_for(prop), sim_kw=kw)
             res.absorb(tr2, props=(prop,))
             res.count("resimulated_runs")
